@@ -109,16 +109,16 @@ func (w *world) ofKind(k config.GroupVersionKind) []*config.Config {
 var (
 	exactHosts = []string{"a.example.com", "b.example.com", "api.b.example.com", "c.example.com", "db.corp.internal", "cache.corp.internal",
 		"svc-a.ns1.svc.cluster.local", "svc-b.ns2.svc.cluster.local", "svc-a.ns2.svc.cluster.local"}
-	caseHosts = []string{"A.example.com", "B.Example.com", "DB.corp.internal"}
-	wildHosts = []string{"*.example.com", "*.example.com", "*.b.example.com", "*.corp.internal", "*.corp.internal", "*.ns1.svc.cluster.local", "*.ns3.svc.cluster.local", "*.com"}
-	vips      = []string{"10.10.0.1", "10.10.0.2", "10.10.0.3", "240.240.0.1"}
-	cidrs     = []string{"10.20.0.0/24", "10.20.0.0/16", "10.10.0.1/32"}
-	epIPs     = []string{"10.30.0.1", "10.30.0.2", "10.30.0.3", "10.30.1.1", "10.9.1.1", "10.9.2.1"}
-	epHosts   = []string{"backend-1.internal", "backend-2.internal", "a.example.com"}
+	caseHosts  = []string{"A.example.com", "B.Example.com", "DB.corp.internal"}
+	wildHosts  = []string{"*.example.com", "*.example.com", "*.b.example.com", "*.corp.internal", "*.corp.internal", "*.ns1.svc.cluster.local", "*.ns3.svc.cluster.local", "*.com"}
+	vips       = []string{"10.10.0.1", "10.10.0.2", "10.10.0.3", "240.240.0.1"}
+	cidrs      = []string{"10.20.0.0/24", "10.20.0.0/16", "10.10.0.1/32"}
+	epIPs      = []string{"10.30.0.1", "10.30.0.2", "10.30.0.3", "10.30.1.1", "10.9.1.1", "10.9.2.1"}
+	epHosts    = []string{"backend-1.internal", "backend-2.internal", "a.example.com"}
 	localities = []string{"region1/zone1/sub1", "region1/zone2", "region2/zone1", ""}
-	gwHosts   = []string{"shop.example.org", "api.example.org", "*.example.org", "*", "a.example.com", "*.example.com", "pay.shop.example.org", "SHOP.example.org"}
-	credNames = []string{"cred-a", "cred-b", "cred-c"}
-	labelSets = []map[string]string{{"app": "a"}, {"app": "a", "version": "v1"}, {"app": "b"}, {"version": "v2"}, {"app": "a", "version": "v2"}, {"app": "c"}}
+	gwHosts    = []string{"shop.example.org", "api.example.org", "*.example.org", "*", "a.example.com", "*.example.com", "pay.shop.example.org", "SHOP.example.org"}
+	credNames  = []string{"cred-a", "cred-b", "cred-c"}
+	labelSets  = []map[string]string{{"app": "a"}, {"app": "a", "version": "v1"}, {"app": "b"}, {"version": "v2"}, {"app": "a", "version": "v2"}, {"app": "c"}}
 )
 
 type portT struct {
@@ -408,7 +408,8 @@ func genLB(r *rand.Rand) *networking.LoadBalancerSettings {
 		lb.LbPolicy = &networking.LoadBalancerSettings_ConsistentHash{ConsistentHash: &networking.LoadBalancerSettings_ConsistentHashLB{
 			HashKey: &networking.LoadBalancerSettings_ConsistentHashLB_HttpCookie{HttpCookie: &networking.LoadBalancerSettings_ConsistentHashLB_HTTPCookie{
 				Name: "session", Ttl: durationpb.New(time.Duration(r.Intn(3)) * time.Minute), Path: pick(r, []string{"", "/"})}},
-			MinimumRingSize: uint64(pick(r, []int{0, 1, 1024, 8388608}))}}
+			// 9000000000 is above Envoy's maximum (8388608) and admission-valid all the same
+			MinimumRingSize: uint64(pick(r, []int{0, 1, 1024, 1024, 8388608, 8388608, 9000000000}))}}
 	case 6:
 		lb.LbPolicy = &networking.LoadBalancerSettings_ConsistentHash{ConsistentHash: &networking.LoadBalancerSettings_ConsistentHashLB{
 			HashKey:       &networking.LoadBalancerSettings_ConsistentHashLB_UseSourceIp{UseSourceIp: true},
@@ -888,8 +889,8 @@ func isHTTPProto(p string) bool {
 	return false
 }
 
-func isTCPProto(p string) bool  { return !isHTTPProto(p) || p == "" }
-func isTLSProto(p string) bool  { return strings.ToUpper(p) == "TLS" || strings.ToUpper(p) == "HTTPS" }
+func isTCPProto(p string) bool { return !isHTTPProto(p) || p == "" }
+func isTLSProto(p string) bool { return strings.ToUpper(p) == "TLS" || strings.ToUpper(p) == "HTTPS" }
 
 func genHeaderOps(r *rand.Rand) *networking.Headers {
 	h := &networking.Headers{}
